@@ -8,9 +8,9 @@ def prop(pid, level, text, note, technique, design_ref, **kw):
 
 prop(
     "C10", "proof",
-    "Every function of the timing engine that the property depends on carries a pre/post contract; the VCs are generated from the real source by pyvc and discharged by z3 for all inputs (reals for floats). Loops over tempo lists / queries are handled by inductive invariants, not unrolling.",
-    "A1 (reals for floats), A3 (stdlib), numpy argsort/fancy-index contracts (A2); Snapper table invariants checked natively on the real default table every run.",
-    "contract-based deductive verification: sidecar pre/postconditions + loop invariants, VCs from the real AST, z3/cvc5",
+    "Pre/post contracts on the timing engine's functions (Snap normalisation/order/difference/duration, Snap.from_offset, Snapper.snap over an abstract grid table, from_bpm_changes_snap, TimingMap.bpm_changes_snap/offsets/snaps); VCs generated from the real source and discharged by z3 4.8/5.1 for all values (floats as reals). The two loops (tempo accumulation, reverse query sweep) are verified as loop-body units from an arbitrary state satisfying the stated invariant (unbounded iterations); whole functions are additionally proved at 1..3 tempo changes x 1..3 queries in every order. beats(), non-default Snapper divisions and float rounding only by the bounded native side.",
+    "A1 (reals for floats), A3 (stdlib), A2 numpy argsort/fancy-index model (pyvc/npmodel.py); Snapper table abstracted by invariants I1-I4 which are checked natively on the real default table every run (Snapper.__init__ itself is numpy and not verified); domain: a tempo change keeps the metronome or sits on a measure line.",
+    "contract-based deductive verification: sidecar pre/postconditions, loop-body units with invariants, modular callee contracts; VCs from the real AST; z3/cvc5",
     "DESIGN.md section 7 C10",
 )
 
